@@ -11,7 +11,7 @@ that the intercepted functions are those group operations (C03)."""
 import re
 from .ir import Unsupported
 from .poly import Poly, ZERO, ONE
-from .lsym import LSym, Ptr, Cond, UNDEF, PanicReached
+from .lsym import LSym, Ptr, SymPtr, Cond, UNDEF, PanicReached
 
 class G:
     """group element: dict base name -> coefficient Poly"""
@@ -129,6 +129,8 @@ class GSym(LSym):
     def enter_arm(self, desc):
         kind, d = desc
         cond = Cond("cmp", kind, d, ZERO)
+        bv = self.boolvar(cond)        # created under the unrefined bounds: the same variable the merge uses for this arm
+        self.__dict__.setdefault("arm_vars", []).append(None if bv.is_const() else list(bv.t)[0][0])
         self.path.append(cond)
         sv = self._single_var(d)
         tok = None
@@ -145,7 +147,7 @@ class GSym(LSym):
             if hasattr(self.ctx, "_ivcache"): self.ctx._ivcache = {}
         return tok
     def leave_arm(self, desc, tok):
-        self.path.pop()
+        self.path.pop(); self.arm_vars.pop()
         if tok is not None:
             self.ctx.bounds[tok[0]] = tok[1]
             if hasattr(self.ctx, "_ivcache"): self.ctx._ivcache = {}
@@ -183,6 +185,7 @@ class GSym(LSym):
             for (d, _), v in zip(per, vals):
                 b = self.boolvar(Cond("cmp", d[0], d[1], ZERO))
                 acc = acc + (v - base[0]).scale(b)
+            acc = self.gnorm(acc)
             self.general_merges = getattr(self, "general_merges", 0) + 1
             return (self.shared_obj(("obj", okey), lambda: acc), k, size)
         if all(isinstance(v, Poly) for v in vals) and isinstance(base[0], Poly) and size <= 8:
@@ -192,6 +195,37 @@ class GSym(LSym):
                 acc = acc + (v - base[0]) * b
             return (self.shared_obj(("obj", okey), lambda: acc), k, size)
         raise Unsupported("cannot merge cell values %r" % ([type(v).__name__ for v in vals],))
+    def fold_indicators(self, p):
+        """sum_v K*v*I(d == v) over ALL non-zero values v of digit d's range  ->  K*d   (d = sum_{v != 0} v*[d == v] for d in its range;
+        finite identity, discharged once per range by the solver: see lemma_onehot)"""
+        info = self.__dict__.get("ind_info")
+        if not info: return p, []
+        per = {}
+        rest = {}
+        for m, c in p.t.items():
+            if len(m) == 1 and m[0] in info:
+                dv, val = info[m[0]]; per.setdefault(dv, {})[val] = (c, m)
+            else: rest[m] = c
+        used = []
+        for dv, vals in per.items():
+            lo, hi = self.ctx.bounds[dv]
+            want = [v for v in range(lo, hi + 1) if v != 0]
+            ok = all(v in vals for v in want) and len(vals) == len(want)
+            K = None
+            if ok:
+                for v in want:
+                    c = vals[v][0]
+                    if c % v: ok = False; break
+                    k = c // v
+                    if K is None: K = k
+                    elif K != k: ok = False; break
+            if ok and K is not None:
+                rest[(dv,)] = rest.get((dv,), 0) + K
+                if not rest[(dv,)]: del rest[(dv,)]
+                used.append((dv, lo, hi))
+            else:
+                for v, (c, m) in vals.items(): rest[m] = rest.get(m, 0) + c
+        return Poly(rest), used
     def shared_obj(self, key, make):
         """all bytes of one merged object must share the SAME python object (loads reassemble objects by identity);
         the cache lives for one fork_merge and keeps the keyed objects alive (no id reuse)"""
@@ -218,6 +252,19 @@ class GSym(LSym):
                 return SDigit(a.v + self.digit_value(b, w), w)
             raise Unsupported("arithmetic %s on an abstract digit" % op)
         return super().binop(op, w, a, b, flags)
+    def intrinsic(self, name, a):
+        m = re.match(r'llvm\.s(add|sub|mul)\.with\.overflow\.i(\d+)', name)
+        if m and (isinstance(a[0], SDigit) or isinstance(a[1], SDigit)):
+            # checked arithmetic on a signed digit: exact integer result, overflow = result outside the signed range of the type
+            op, w = m.group(1), int(m.group(2))
+            x, y = self.digit_value(a[0], w), self.digit_value(a[1], w)
+            r = x + y if op == "add" else (x - y if op == "sub" else x * y)
+            lo, hi = self.ctx.interval(self.ctx.resolve(r)); mn, mx = -(1 << (w - 1)), (1 << (w - 1)) - 1
+            if lo >= mn and hi <= mx: ov = Cond("const", False)
+            elif hi < mn or lo > mx: ov = Cond("const", True)
+            else: ov = Cond("or", Cond("cmp", "lt", r, Poly.const(mn)), Cond("cmp", "gt", r, Poly.const(mx)))
+            return [SDigit(r, w), ov]
+        return super().intrinsic(name, a)
     def icmp(self, pred, ty, a, b):
         if isinstance(a, SDigit) or isinstance(b, SDigit):
             from .ir import int_width
@@ -225,7 +272,11 @@ class GSym(LSym):
             va = a.v if isinstance(a, SDigit) else self.digit_value(a, w)
             vb = b.v if isinstance(b, SDigit) else self.digit_value(b, w)
             mp = {"eq": "eq", "ne": "ne", "slt": "lt", "sle": "le", "sgt": "gt", "sge": "ge"}.get(pred)
-            if mp is None: raise Unsupported("unsigned comparison of an abstract signed digit")
+            if mp is None:
+                # unsigned comparison: the same as the signed one when both sides are known non-negative (bounds checks of digit-derived indices)
+                la, _ = self.ctx.interval(self.ctx.resolve(va)); lb, _ = self.ctx.interval(self.ctx.resolve(vb))
+                if la >= 0 and lb >= 0: mp = {"ult": "lt", "ule": "le", "ugt": "gt", "uge": "ge"}[pred]
+                else: raise Unsupported("unsigned comparison of a possibly negative abstract digit")
             c = Cond("cmp", mp, va, vb)
             r = self.eval_cond(c)
             return c if r is None else Cond("const", r)
@@ -259,7 +310,68 @@ class GSym(LSym):
                 r = sub.call(f, [])
                 if isinstance(r, Ptr): out[r.r] = h
         return out
+    # ---- arrays of group elements indexed by a digit (Pippenger's buckets): one-hot indicators I(idx == c)
+    def sym_gep(self, base, idx, stride):
+        idx = self.ctx.resolve(idx)
+        lo, hi = self.ctx.interval(idx)
+        if lo < 0 or hi - lo > 255: return None
+        return SymPtr(base.r, base.o, idx, stride, lo, hi)
+    def ind(self, idx, c):
+        """0/1 variable for [idx == c]; registered in a one-hot group (same idx) and as implying the arm conditions it was created under"""
+        v = self.boolvar(Cond("cmp", "eq", idx, Poly.const(c)))
+        if v.is_const(): return v
+        (m, _), = v.t.items(); name = m[0]
+        oh = self.__dict__.setdefault("onehot", {})
+        if name not in oh:
+            oh[name] = (repr(idx), c)
+            sv = self._single_var(idx)
+            if sv is not None:
+                dv, sg, k = sv        # idx = sg*dv + k == c  <=>  dv == sg*(c - k)
+                self.__dict__.setdefault("ind_info", {})[name] = (dv, sg * (c - k))
+            self.__dict__.setdefault("implies", {})[name] = set(x for x in self.__dict__.get("arm_vars", []) if x)
+        return v
+    def norm1h(self, p):
+        """normal form modulo the one-hot algebra: b*b = b, I(idx==c)*I(idx==c') = 0 for c != c', I*[arm condition it implies] = I"""
+        oh = self.__dict__.get("onehot"); 
+        if not oh or p.degree() < 2: return p
+        imp = self.__dict__.get("implies", {}); bounds = self.ctx.bounds
+        out = {}
+        for m, c in p.t.items():
+            if len(m) >= 2:
+                vs = []
+                for x in m:
+                    if x in vs and bounds.get(x) == (0, 1): continue
+                    vs.append(x)
+                groups = {}
+                dead = False
+                for x in vs:
+                    g = oh.get(x)
+                    if g is not None:
+                        if g[0] in groups and groups[g[0]] != g[1]: dead = True; break
+                        groups[g[0]] = g[1]
+                if dead: continue
+                drop = set()
+                for x in vs:
+                    for y in imp.get(x, ()):
+                        if y in vs: drop.add(y)
+                m = tuple(sorted(x for x in vs if x not in drop))
+            v = out.get(m, 0) + c
+            if v: out[m] = v
+            else: out.pop(m, None)
+        return Poly(out)
+    def gnorm(self, g): return G({b: self.norm1h(p) for b, p in g.c.items()})
+    def memcpy(self, d, s, n):
+        if isinstance(d, SymPtr) or isinstance(s, SymPtr):
+            g = self.get(s)
+            return self.put(d, g, n)
+        return super().memcpy(d, s, n)
     def get(self, p):
+        if isinstance(p, SymPtr):
+            self.count("symbolic_index_load")
+            acc = G()
+            for c in range(p.lo, p.hi + 1):
+                acc = acc + self.get(Ptr(p.r, p.o + c * p.stride)).scale(self.ind(p.idx, c))
+            return self.gnorm(acc)
         if not isinstance(p, Ptr): raise Unsupported("point operand is not a pointer")
         e = self.regions[p.r].b.get(p.o)
         if e is not None and isinstance(e[0], G) and e[1] == 0: return e[0]
@@ -269,6 +381,14 @@ class GSym(LSym):
             if p.r in sp: self.count("static_basepoint"); return G.base("B")      # ED25519_BASEPOINT_POINT (value: C12)
         raise Unsupported("point operand at %r is not an abstract group element" % (p,))
     def put(self, p, g, size):
+        if isinstance(p, SymPtr):
+            self.count("symbolic_index_store")
+            if size > p.stride: raise Unsupported("store through a symbolic pointer larger than the element")
+            for c in range(p.lo, p.hi + 1):
+                q = Ptr(p.r, p.o + c * p.stride)
+                old = self.get(q)
+                self.put(q, self.gnorm(old + (g - old).scale(self.ind(p.idx, c))), size)
+            return None
         R = self.regions[p.r]
         for k in range(size): R.b[p.o + k] = (g, k, size)
         return None
@@ -298,8 +418,30 @@ class GSym(LSym):
             vs = [self.ctx.input("%s_d%d" % (tag, i), -8, 8 if i == 63 else 7) for i in range(64)]
             d = dict(kind="radix16", vars=vs, weights=[16 ** i for i in range(64)]); self.digits[(tag, "r16")] = d
         for i, v in enumerate(d["vars"]): self.store(Ptr(a[0].r, a[0].o + i), SDigit(v, 8), 1)
+    def concrete_scalar(self, p):
+        """the integer value of a scalar argument whose 32 bytes are all concrete, else None"""
+        R = self.regions[p.r]; v = 0
+        for k in range(32):
+            e = R.b.get(p.o + k)
+            if e is None or not isinstance(e[0], Poly) or e[2] != 1 or not e[0].is_const(): return None
+            v |= e[0].cval() << (8 * k)
+        return v
     def radix2w(self, a):
         self.count("as_radix_2w")
+        cs = self.concrete_scalar(a[1])
+        if cs is not None:
+            # a concrete scalar: digits by the reference recoding (signed radix 2^w, the function certified by the Kani harnesses)
+            w = self.P(a[2]).cval()
+            if w == 4: raise Unsupported("concrete radix-16 recoding not modelled")
+            dc = (256 + w - 1) // w; ds = [0] * 64; carry = 0
+            for i in range(dc):
+                coef = carry + ((cs >> (w * i)) & ((1 << w) - 1))
+                carry = (coef + (1 << (w - 1))) >> w
+                ds[i] = coef - (carry << w)
+            if w == 8: ds[dc] += carry
+            else: ds[dc - 1] += carry << w
+            for i in range(64): self.store(Ptr(a[0].r, a[0].o + i), Poly.const((ds[i] if i < len(ds) else 0) & 255), 1)
+            return
         tag = self.scalar_tag(a[1]); w = self.P(a[2]).cval()
         n = (256 + w - 1) // w
         if w == 8: n += 1          # radix 256 needs one extra digit for the final carry
